@@ -219,7 +219,7 @@ def index_specs(h, k, r, full):
 
 # ------------------------------------------------------------------ real runs
 def objective(x):
-    return np.sum(x ** 2) + 0.5 * np.sum(x)
+    return np.sum(x ** 2) + 1.0          # positive: ABC's onlooker loop needs a sign-definite objective (finding e, C03)
 
 
 def make_run(name, sbo, size, seed):
